@@ -5,6 +5,7 @@
 -/
 import Lean.Data.Json
 import TopsimModel.Procs
+import TopsimModel.Sim
 import TopsimModel.Delay
 import TopsimModel.Config
 
@@ -221,6 +222,29 @@ def step (st : St) (line : String) : St × String :=
     | "log" => (st, showList showEvent st.sys.log)
     | "rows" => (st, showList showRow st.sys.rows)
     | "state" => (st, showSys st.sys)
+    -- L3: whole simulation, SimPy order
+    | "simulate" =>
+      let s := parseSys ((j.getObjVal? "spec").toOption.getD Json.null)
+      let env : SimEnv :=
+        { delayTable := (jarr j "delay_table").toList.map (fun p => let a := asArr p; (asNat a[0]!, asNat a[1]!)),
+          delayScript := (jarr j "delay_script").toList.map asNat,
+          staticPlans := (jarr j "static_plans").toList.map (fun p =>
+            let a := asArr p
+            (asNat a[0]!, (asArr a[1]!).toList.map (fun r => let b := asArr r; (asNat b[0]!, asNat b[1]!, asNat b[2]!, asNat b[3]!)))) }
+      let fuel := jnat j "fuel" 200000
+      let (k, endT) :=
+        if jhas j "until" then
+          let segs := (jarr j "resume").toList.map asNat
+          let k0 := SimState.startUntil env s (jnat j "until") fuel
+          let k1 := segs.foldl (fun k u => SimState.resumeUntil env k u fuel) k0
+          (k1, (segs.getLast?).getD (jnat j "until"))
+        else SimState.runToCompletion env fuel (jnat j "max_steps" 2000) 0 (SimState.start s)
+      let st := k.st
+      let tasks := showList (fun (p : Tid × Bool) =>
+        match st.task? p.1 with
+        | some r => s!"{showTid r.id}:{showOptRat r.ast}:{showOptRat r.aft}:{showBool p.2}"
+        | none => s!"{showTid p.1}:?") st.cl.finished
+      ({ st with sys := st }, s!"end={endT} crashed={showErr st.crashed} halted={showBool st.halted} rows={showList showRow st.rows} log={showList showEvent st.log} tasks={tasks}")
     -- cluster-only slice
     | "clinit" =>
       let c := Cluster.init ((jarr j "machines").toList.map asNat)
